@@ -226,7 +226,8 @@ def concurrent_use_slice(prop, tier, seed, out):
 
 def replay_payload(sp, cfg, res):
     return {"engine": "native", "bin": "treedrv", "spec": res.spec_text, "config": cfg.describe(), "stdout": res.stdout[-6000:], "stderr": res.stderr[-1500:],
-            "job": getattr(cfg, "job_ref", None)}
+            "job": getattr(cfg, "job_ref", None), "affinity": getattr(cfg, "affinity", None),
+            "parallelism": TG.PARALLELISM}
 
 
 def run_jobs(prop, jobs, out, want=None, extra=None):
@@ -506,10 +507,16 @@ def replay(prop, rp, out):
     r = rp["first"]["replay"]
     job = r.get("job")
     if job:
+        global FORCED_PARALLELISM
+        if r.get("affinity"):
+            FORCED_PARALLELISM = r.get("parallelism")     # the job ran under a CPU mask: regenerate and run it under the same
         # registries and configurations are regenerated deterministically from (profile, tier, seed); run that one job again
         jobs = bulk_jobs(job["seed"]) if job["profile"] == "bulk" else make_jobs(job["profile"], job["tier"], job["seed"])
         if job["index"] < len(jobs):
+            if r.get("affinity"):
+                jobs[job["index"]][1].affinity = r["affinity"]
             agg, results, exe = run_jobs(prop, [jobs[job["index"]]], out)
+            FORCED_PARALLELISM = None
             out.extra["observed"] = agg
             out.extra["replayed_job"] = job
             if prop == "C14":
